@@ -1,6 +1,7 @@
 import VlsModel.Model.Enforcement
 import VlsModel.Gen.FnEnforce
 import VlsModel.Gen.FnChannel
+import VlsModel.Gen.FnEnforceNew
 import VlsModel.Lemmas.FnGen
 import VlsModel.Lemmas.EnforcementFn
 /-
@@ -255,6 +256,27 @@ theorem C01_fn_getSecretOrNone_model {K S : Type} (rel : K → Nat → Option S)
     · have hi : ¬ n > INITIAL := by omega
       simp [a, b, hi, hrel, hfs]
 
+/-- read off the generated bodies alone (every key store, every `from_slice`): a returned secret means
+    `n + 2 ≤ next_holder_commit_num` without wrap-around — `C01_guard` at the level of the generated code -/
+theorem C01_fn_secret_needs_counter {K S : Type} (f : String → Bool)
+    (hf : f "policy-revoke-new-commitment-signed" = true)
+    (rel : K → Nat → Option S) (fs : S → Option Nat) (c : Chan) (k : K) (n sk : Nat) :
+    (Gen.FnChannel.Channel.get_per_commitment_secret f rel fs (toCh c k) n = .ok sk →
+        n + 2 ≤ c.next ∧ n + 2 ≤ Rs.U64_MAX)
+    ∧ (Gen.FnChannel.Channel.get_per_commitment_secret_or_none rel fs (toCh c k) n = .ok (some sk) →
+        n + 2 ≤ c.next ∧ n + 2 ≤ Rs.U64_MAX) := by
+  constructor
+  · intro h
+    rw [C01_fn_get_per_commitment_secret f hf rel fs c k n] at h
+    by_cases g : n + 2 > Rs.U64_MAX ∨ n + 2 > c.next
+    · rw [if_pos g] at h; cases h
+    · constructor <;> omega
+  · intro h
+    rw [C01_fn_get_per_commitment_secret_or_none rel fs c k n] at h
+    by_cases g : n + 2 > Rs.U64_MAX ∨ n + 2 > c.next
+    · rw [if_pos g] at h; cases h
+    · constructor <;> omega
+
 /-- what the guard rests on: with `policy-revoke-new-commitment-signed` demoted to a warning the macro only logs and the
     secret of ANY number up to 2^48-1 is released (the documented opt-out `new_permissive()`; the model, the harness'
     filters and `C01_main` assume the tag stays an error) -/
@@ -315,6 +337,89 @@ theorem C01_fn_release_commitment_secret {K S : Type} (pt : Nat → Nat)
           simp
     · have b' : ¬ (1 ≤ n) := b
       simp [b, b']
+
+/-- **the whole revoke request** (`revoke_previous_holder_commitment(n)`) of the model in terms of the generated bodies:
+    for `n ≠ next` it is the generated `release_commitment_secret` on the unchanged channel; for `n = next` the two
+    refusals of channel.rs (closed, nothing staged — hand-modelled glue) and then the generated
+    `Validator::set_next_holder_commit_num(n + 1)` followed by the generated `release_commitment_secret` on the advanced
+    state -/
+theorem C01_fn_revoke_request {K S : Type} (ptf : Nat → Nat)
+    (rel : K → Nat → Option S) (fs : S → Option Nat) (r : K → Nat → S) (g : S → Nat)
+    (hrel : ∀ k i, rel k i = some (r k i)) (hfs : ∀ s, fs s = some (g s))
+    (c : Chan) (k : K) (n : Nat) (hs : c.slot = .ready) (hb : c.next + 1 ≤ INITIAL + 2) :
+    (n ≠ c.next →
+        (revoke c n).c = c
+        ∧ (revoke c n).out.res = cls (Gen.FnChannel.Channel.release_commitment_secret ptf strict rel fs (toCh c k) n))
+    ∧ (n = c.next → c.closed = true → revoke c n = fail c .errPolicy)
+    ∧ (n = c.next → c.closed = false → c.nextInfo = none → revoke c n = fail c .errPolicy)
+    ∧ (∀ info, n = c.next → c.closed = false → c.nextInfo = some info →
+        Validator.set_next_holder_commit_num strict () (toES c) (n + 1) info info
+            = .ok (toES { c with nextInfo := none, next := n + 1, cur := some info })
+        ∧ (revoke c n).out.res
+            = cls (Gen.FnChannel.Channel.release_commitment_secret ptf strict rel fs
+                    (toCh { c with nextInfo := none, next := n + 1, cur := some info } k) n)
+        ∧ ((revoke c n).out.res = .ok →
+            (revoke c n).c = { c with nextInfo := none, next := n + 1, cur := some info })) := by
+  have hI : INITIAL = 281474976710655 := INITIAL_eq
+  have hx : c.next + 1 ≤ Rs.U64_MAX := by unfold Rs.U64_MAX; omega
+  refine ⟨?_, ?_, ?_, ?_⟩
+  · intro hne
+    have hrel' := C01_fn_release_commitment_secret ptf rel fs r g hrel hfs c k n hs (by omega)
+    unfold revoke
+    simp only [hne, ne_eq, not_false_eq_true, if_true]
+    exact ⟨trivial, hrel'.1⟩
+  · intro he hc
+    unfold revoke
+    simp [he, hc]
+  · intro he hc hni
+    unfold revoke
+    simp [he, hc, hni]
+  · intro info he hc hni
+    subst he
+    have hset := C01_fn_validator_set_next_holder_commit_num strict c info hx
+    refine ⟨hset, ?_⟩
+    have hu : ¬ c.next + 1 > U64.MAX := by
+      have : U64.MAX = Rs.U64_MAX := by decide
+      omega
+    have hs' : ({ c with nextInfo := none, next := c.next + 1, cur := some info } : Chan).slot = .ready := hs
+    have hrel' := C01_fn_release_commitment_secret ptf rel fs r g hrel hfs
+      { c with nextInfo := none, next := c.next + 1, cur := some info } k c.next hs' (by simpa using hb)
+    have hrel'' := hrel'.1
+    unfold revoke
+    simp only [ne_eq, not_true_eq_false, if_false, hc, Bool.false_eq_true, hni, hu] at hrel'' ⊢
+    rw [← hrel'']
+    split
+    · rename_i ho
+      exact ⟨rfl, fun _ => rfl⟩
+    · rename_i ho
+      refine ⟨rfl, fun h => absurd h ?_⟩
+      simpa using ho
+
+-- non-vacuity of the hypotheses of `C01_fn_revoke_request`: next = 1 with a staged commitment, a total key store
+example :=
+  C01_fn_revoke_request (K := Unit) (S := Nat) (fun n => n) (fun _ i => some i) (fun s => some s) (fun _ i => i) (fun s => s)
+    (fun _ _ => rfl) (fun _ => rfl) { slot := .ready, next := 1, cur := some 0, nextInfo := some 1 } () 1 rfl (by decide)
+
+/-! ### `EnforcementState::new` (validator.rs:696): the state every channel starts from -/
+
+/-- a model channel read as ALL thirteen fields of `EnforcementState` (`initial_holder_value` is not part of the model) -/
+def toESfull (c : Chan) (v : Nat) : Gen.FnEnforceNew.EnforcementState Nat Nat Nat :=
+  { next_holder_commit_num := c.next, next_counterparty_commit_num := c.cpCommit,
+    next_counterparty_revoke_num := c.cpRevoke, current_counterparty_point := c.curPt,
+    previous_counterparty_point := c.prevPt, current_holder_commit_info := c.cur,
+    current_counterparty_signatures := c.cur, next_holder_commit_info := c.nextInfo.map (fun i => (i, i)),
+    current_counterparty_commit_info := c.curInfo, previous_counterparty_commit_info := c.prevInfo,
+    channel_closed := c.closed, initial_holder_value := v,
+    counterparty_secrets := c.secrets.map (fun st => { old_secrets := st.map (fun e => (e.1.map UInt8.toNat, e.2)) }) }
+
+/-- the generated `EnforcementState::new` is the model's fresh ready channel (counters 0, nothing staged, not closed,
+    an empty secret store), which is what the model's `setup` installs -/
+theorem C01_fn_enforcement_state_new (v : Nat) (F : Nat → Secrets.Bytes → Secrets.Bytes) :
+    Gen.FnEnforceNew.EnforcementState.new v = toESfull { slot := .ready } v
+    ∧ (chanStep F {} .setup).c = { slot := .ready } := by
+  constructor
+  · rfl
+  · rfl
 
 -- non-vacuity: a channel with `next = 3` and a staged commitment
 example : Validator.set_next_holder_commit_num strict () (toES { slot := .ready, next := 3, cur := some 7 }) 4 9 9
